@@ -566,7 +566,7 @@ def kfFunctions : List String := ["has_group", "first_entry", "first_definition"
 
 /-! the copying functions (`setGroupList`, `cpy_file_entry`, the three steps of `econf_mergeFiles`): objects with values -/
 
-def mergeFunctions : List String := ["setGroupList", "cpy_file_entry", "merge3"]
+def mergeFunctions : List String := ["setGroupList", "cpy_file_entry", "merge3", "mergeFiles"]
 
 open MiniC in
 /-- append an `econf_file` described by an `e…` / `g…` token (entries may carry a third field, the value; `-` = NULL);
@@ -676,6 +676,34 @@ def mergeLine (t : Array String) : String :=
         let num := fun (v : Val) => match v with | .int n => toString n | v => s!"({repr v})"
         s!"{f} {idxOf ps (recGet "file_entry" sl "group")} {optStr m (recGet "file_entry" sl "key")} {optStr m (recGet "file_entry" sl "value")} {optStr m (recGet "file_entry" sl "comment_before_key")} {optStr m (recGet "file_entry" sl "comment_after_value")} {num (recGet "file_entry" sl "line_number")} {num (recGet "file_entry" sl "quotes")}{gs}"
       | v => s!"{f} unexpected result {repr v}"
+  else if f == "mergeFiles" then
+    -- econf_mergeFiles itself: the result object and its array are allocated by the translated function
+    let (m0, uf) := addKf [] (t.getD 1 "e")
+    let (m1, ef) := addKf m0 (t.getD 2 "e")
+    let len := fun (m : Mem) (k : Nat) => match (m[k]?.map (fun b => recGet "econf_file" b.slots "length")) with | some (.int n) => n.toNat | _ => 0
+    let total := len m1 uf + len m1 ef
+    let cell := m1.length
+    let m2 : Mem := m1 ++ [{ cells := [], slots := [.null] }]
+    match runFn "econf_mergeFiles" (fuel + total) m2 [.ptr cell 0, .ptr uf 0, .ptr ef 0] with
+    | .error e => s!"{f} {e}"
+    | .ok (.int code, m5) =>
+      match (m5[cell]?.map (·.slots)) with
+      | some [Val.ptr dest _] =>
+        let kf := (m5[dest]?.map (·.slots)).getD []
+        let (ps, gs) := groupsOf m5 dest
+        let num := fun (v : Val) => match v with | .int n => toString n | v => s!"({repr v})"
+        let sl := match recGet "econf_file" kf "file_entry" with
+          | .ptr b _ => (m5[b]?.map Block.slots).getD []
+          | _ => []
+        let l3 := match recGet "econf_file" kf "length" with | .int n => n.toNat | _ => 0
+        let ent := fun (i : Nat) =>
+          let e := (sl.drop (7 * i)).take 7
+          s!"{idxOf ps (recGet "file_entry" e "group")}:{optStr m5 (recGet "file_entry" e "key")}:{optStr m5 (recGet "file_entry" e "value")}:{num (recGet "file_entry" e "line_number")}:{num (recGet "file_entry" e "quotes")}"
+        let path := match recGet "econf_file" kf "path" with | .null => "-" | _ => "path"
+        s!"{f} E{code} {num (recGet "econf_file" kf "length")} {num (recGet "econf_file" kf "alloc_length")} {num (recGet "econf_file" kf "delimiter")} {num (recGet "econf_file" kf "comment")} {path} e"
+          ++ ",".intercalate ((List.range l3).map ent) ++ gs
+      | _ => s!"{f} E{code}"
+    | .ok (v, _) => s!"{f} returned {repr v}"
   else
     -- merge3: what econf_mergeFiles does with its two inputs
     let (m0, uf) := addKf [] (t.getD 1 "e")
